@@ -151,8 +151,9 @@ Definition buffer (L : list param) (v : vec) : list Z := mread (v_mem v) 0 (Z.to
 
 Definition vec_equal (L : list param) (v1 v2 : vec) : bool :=
   if forallb eqm L && padfree L && list_eqb (v_fixed v1) (v_fixed v2) then
-    if vsize L v1 =? 0 then vsize L v2 =? 0
-    else if vsize L v2 =? 0 then false
+    (* elements can be empty (all fixed sizes zero): the number of elements is compared first *)
+    if negb (vsize L v1 =? vsize L v2) then false
+    else if vsize L v1 =? 0 then true
     else list_eqb (buffer L v1) (buffer L v2)
   else elems_equal L v1 v2.
 
@@ -160,6 +161,7 @@ Definition vec_less (L : list param) (v1 v2 : vec) : bool :=
   if forallb lxm L && negb (has_varying L) && padfree L && list_eqb (v_fixed v1) (v_fixed v2) then
     if vsize L v1 =? 0 then negb (vsize L v2 =? 0)
     else if vsize L v2 =? 0 then false
+    else if dend L v1 =? 0 then vsize L v1 <? vsize L v2       (* elements without any bytes *)
     else lex_lt (buffer L v1) (buffer L v2)
   else elems_less L v1 v2.
 
